@@ -63,7 +63,9 @@ func (s *Service) handleConnection(socket *websocket.Conn) {
 	}
 
 	// now add the new connected client
+	s.mutex.Lock()
 	s.clients = append(s.clients, client)
+	s.mutex.Unlock()
 
 	// dispatch incoming events
 	s.routine(client)
@@ -188,7 +190,9 @@ func (s *Service) dispatch(response map[string]map[string]any, client *ClientSer
 		}
 
 		// check if that agent name is already registered.
+		s.mutex.Lock()
 		if s.AgentExist(as.Name) {
+			s.mutex.Unlock()
 			logger.Error(fmt.Sprintf("Service agent \"%v\"already registered ", as.Name))
 			return
 		}
@@ -196,6 +200,7 @@ func (s *Service) dispatch(response map[string]map[string]any, client *ClientSer
 		as.service = s
 
 		s.Agents = append(s.Agents, as)
+		s.mutex.Unlock()
 
 		logger.Info(fmt.Sprintf("%v registered a new agent %v", "["+colors.BoldWhite("SERVICE")+"]", "[Name: "+colors.Blue(as.Name)+"]"))
 
@@ -515,11 +520,13 @@ func (s *Service) dispatch(response map[string]map[string]any, client *ClientSer
 
 				listenerService.client = client
 
+				s.mutex.Lock()
 				if !s.ListenerExist(listenerService.Name) {
 					s.ListenerAdd(listenerService)
 				} else {
 					logger.Error(fmt.Sprintf("Service listener already exist %v", listenerService.Name))
 				}
+				s.mutex.Unlock()
 			}
 
 			break
@@ -715,6 +722,9 @@ func (s *Service) ClientClose(client *ClientService) {
 	if client == nil {
 		return
 	}
+
+	s.mutex.Lock()
+	defer s.mutex.Unlock()
 
 	for i := range s.clients {
 		if s.clients[i] == client {
